@@ -27,7 +27,8 @@ class Ext:
     """
 
     def __init__(self, ret=None, pure=False, event=None, raises=(), ensures=(), havoc=(), requires=(),
-                 note="", model=None, fresh=True, bind=None, log=None, attr=False, log_type=None, uf=None, args=None, snapshot=None):
+                 note="", model=None, fresh=True, bind=None, log=None, attr=False, log_type=None, uf=None, args=None, snapshot=None,
+                 allowed_kwargs=None):
         self.ret = ret
         self.pure = pure
         self.event = event
@@ -38,6 +39,7 @@ class Ext:
         self.note = note
         self.model = model
         self.fresh = fresh
+        self.allowed_kwargs = allowed_kwargs  # keyword arguments the declared behaviour covers (any other one is a callpre failure)
         self.snapshot = snapshot  # label of a heap snapshot taken right after the (first) call returns
         self.args = args  # declared argument types (union-typed actuals are projected onto them)
         self.uf = uf  # name of the uninterpreted function (to share one between spellings)
